@@ -156,6 +156,8 @@ def replay_per_cell(args, outdir):
         strat.demultiplex = demux
         try:
             target = FHm.FastqHandle(os.path.join(d, 'demux'), pairedEnd=True, single_cell=True, maxHandles=a['maxh'])
+            if a.get('prune', 0) > 0:
+                target.handles.pruneEvery = a['prune']
             with contextlib.redirect_stdout(io.StringIO()):
                 H.LOADER.demultiplex(paths, strategies=[strat], library='LIB', targetFile=target, rejectHandle=None)
             target.close()
